@@ -1019,6 +1019,13 @@ def gen_C05(rng, tier, cfg):
         for ln in ((0, 5) if tier == "quick" else (0, 1, SKEIN_B[size], 3 * SKEIN_B[size] + 1)):
             one("%s-%d" % (size, n), SKEIN_B[size], ln, False)
         stats["variants"] += 1
+    # output sizes that alias a standard size when the byte / bit count is narrowed to u8 / u16 (rule 20 applied to
+    # the type-level parameter): every state size with N = 256+32, 256+64, 8192+16/32/64/128, 65536+32/64
+    for size, b in SKEIN_B.items():
+        alias = [288, 320, 8208, 8224, 8256, 8320, 65568, 65600]
+        for n in (alias if tier != "quick" else alias[:6] + [alias[6 + (len(size) + int(size)) % 2]]):
+            one("%s-%d" % (size, n), b, rng.choice([0, 3, b + 1]), False)
+            stats["aliasing_output_sizes"] = stats.get("aliasing_output_sizes", 0) + 1
     for size, b in rot(SKEIN_B.items(), cfg):
         for n in SKEIN_N:
             variant = "%s-%d" % (size, n)
